@@ -61,7 +61,7 @@ Definition marker (id : Z) (m : emode) : list Z := [91] ++ show_int id ++ [58] +
 
 Definition is_none (m : emode) : bool := match m with MNone => true | _ => false end.
 
-Definition exec_list_with (ex : emode -> menv -> mstmt -> outcome (menv * list Z * msig))
+Definition mexec_list_with (ex : emode -> menv -> mstmt -> outcome (menv * list Z * msig))
     : emode -> menv -> list mstmt -> outcome (menv * list Z * msig) :=
   fix go (m : emode) (env : menv) (l : list mstmt) : outcome (menv * list Z * msig) :=
     match l with
@@ -78,16 +78,16 @@ Section Modes.
 (* the templates of the environment: initial mode (from the name, C02/Names.v) and body *)
 Variable tpls : list (emode * list mstmt).
 
-Fixpoint exec (fuel : nat) (initial m : emode) (caller : option (list mstmt)) (li : option Z) (env : menv) (s : mstmt)
+Fixpoint mexec (fuel : nat) (initial m : emode) (caller : option (list mstmt)) (li : option Z) (env : menv) (s : mstmt)
     {struct fuel} : outcome (menv * list Z * msig) :=
   match fuel with
   | O => OutOfGas
   | S fuel =>
     let block (m' : emode) (li' : option Z) (body : list mstmt) :=
-        exec_list_with (fun mm e st => exec fuel initial mm caller li' e st) m' env body in
+        mexec_list_with (fun mm e st => mexec fuel initial mm caller li' e st) m' env body in
     (* a macro / caller() / call block body: fresh scope, `initial` is the mode active at the invocation *)
     let invoke (cal : option (list mstmt)) (body : list mstmt) :=
-        exec_list_with (fun mm e st => exec fuel m mm cal None e st) m empty_env body in
+        mexec_list_with (fun mm e st => mexec fuel m mm cal None e st) m empty_env body in
     match s with
     | MPrint id => Ok (env, marker id m, SNormal)
     | MAuto a body => block (derive initial a) li body          (* no scope of its own: assignments made inside stay visible *)
@@ -141,19 +141,19 @@ Fixpoint exec (fuel : nat) (initial m : emode) (caller : option (list mstmt)) (l
     | MInclude t =>
         match nth_error tpls (Z.to_nat t) with
         | Some (mt, body) =>
-            bind (exec_list_with (fun mm e st => exec fuel mt mm None None e st) mt empty_env body) (fun '(_, o, _) => Ok (env, o, SNormal))
+            bind (mexec_list_with (fun mm e st => mexec fuel mt mm None None e st) mt empty_env body) (fun '(_, o, _) => Ok (env, o, SNormal))
         | None => Err E_TemplateNotFound
         end
     end
   end.
 
-Definition exec_list (fuel : nat) (initial : emode) (caller : option (list mstmt)) (li : option Z) : emode -> menv -> list mstmt -> outcome (menv * list Z * msig) :=
-  exec_list_with (fun mm e st => exec fuel initial mm caller li e st).
+Definition mexec_list (fuel : nat) (initial : emode) (caller : option (list mstmt)) (li : option Z) : emode -> menv -> list mstmt -> outcome (menv * list Z * msig) :=
+  mexec_list_with (fun mm e st => mexec fuel initial mm caller li e st).
 
 (* rendering template 0 *)
 Definition run_modes (fuel : nat) : outcome (list Z) :=
   match tpls with
-  | (m0, body) :: _ => bind (exec_list fuel m0 None None m0 empty_env body) (fun '(_, o, _) => Ok o)
+  | (m0, body) :: _ => bind (mexec_list fuel m0 None None m0 empty_env body) (fun '(_, o, _) => Ok o)
   | [] => Err E_TemplateNotFound
   end.
 End Modes.
